@@ -94,7 +94,26 @@ pub fn mode_parse(j: &J) -> String {
     if x2 - x1 != x1 - x0 { flags.push("ioread"); }
   }
   let tag = match &a {
-    Outcome::Tree(_) => "ok",
+    Outcome::Tree(dbg) => {
+      // "a syntax tree that accounts for the entire input": every word of the text (run of >= 3 ASCII letters) must
+      // occur in the tree (token characters are printed by Debug); text that recovery skipped is in no node
+      let flat: String = dbg.chars().filter(|c| c.is_ascii_alphabetic()).collect();
+      let mut word = String::new();
+      let mut missing = false;
+      for line in src.lines() {
+        let t = line.trim_start();
+        if t.starts_with("```") || t.starts_with("~~~") { continue; }     // a fence line: its info string is not a token
+        for ch in line.chars().chain(std::iter::once(' ')) {
+          if ch.is_ascii_alphabetic() { word.push(ch); }
+          else {
+            if word.len() >= 3 && !flat.contains(&word) { missing = true; if std::env::var("MVH_COV_DEBUG").is_ok() { eprintln!("uncovered word: {}", word); } }
+            word.clear();
+          }
+        }
+      }
+      if missing { flags.push("uncovered"); }
+      "ok"
+    }
     Outcome::Panic => "panic",
     Outcome::OtherErr(_) => { flags.push("nokind"); "err" }
     Outcome::Report(rep) => {
